@@ -33,7 +33,9 @@ def run(ctx, args):
     ctx.model_check("MC_Sticky", "MC_Sticky.cfg" if q else "MC_Sticky10.cfg", timeout=1500)
     ctx.model_check("MC_Sticky", "MC_StickyPinned.cfg", expect_violation="Sticky")     # the method-name exclusion (D17) violates it
     ctx.model_check("MC_Sticky", "MC_StickyPurge.cfg", expect_violation="StickyStep")   # a purge that evicts live pins (due after a long uptime) violates it
+    ctx.model_check("MC_Sticky", "MC_StickyExpires.cfg", expect_violation="StickyStep")  # a pin table that ignores the Expires of the establishing response violates it
     ctx.model_check("MC_Sticky", "MC_StickyReach.cfg", expect_violation="Reach_PinnedAfterRotation")
+    ctx.model_check("MC_Sticky", "MC_StickyReachLong.cfg", expect_violation="Reach_LongSurvives")
     beh = os.path.join(ctx.scratch, "sticky_behaviours.ndjson")
     ctx.emit("MC_Sticky", "MC_StickySim.cfg", beh, simulate="num=%d" % (15 if q else 150), depth=13, workers=1)
     nbeh = sum(1 for _ in open(beh))
@@ -41,10 +43,10 @@ def run(ctx, args):
     ctx.evaluations = ctx.traces
     ctx.distinct = ctx.traces
     ctx.rule = ("histories of {initial INVITE, tagged 1xx/2xx from the chosen backend, in-dialog requests of 10 methods in both directions, unrelated traffic, "
-                "backend-issued SUBSCRIBE answered, BYE answered, NOTIFY terminated}: %d sampled by TLC from MC_Sticky (3 dialogs x 3 backends, depth 12) and random ones "
+                "backend-issued SUBSCRIBE answered, BYE answered, NOTIFY terminated, a long uptime, a dialog timeout passing while dialogs established with a larger Expires live on}: %d sampled by TLC from MC_Sticky (3 dialogs x 3 backends, depth 12) and random ones "
                 "over 1-50 concurrent dialogs and 2-6 backends (tags with '-', equal From/To URIs, tel: URIs); each history is one case; non-trivial = at least one dialog answered" % nbeh)
     ctx.extra["behaviours_emitted_by_tlc"] = nbeh
-    ctx.assumptions += ["responses of a backend are injected with the backend's configured source address", "within the dialog lifetime (1200 s); a long uptime since the last purge of the pin table is set up by moving the table's purge clock into the past",
+    ctx.assumptions += ["responses of a backend are injected with the backend's configured source address", "within the dialog lifetime (1200 s; in the histories where a dialog timeout passes: 70-130 ms in real time, a claim is made only when the bracketing clock readings put the step surely inside max(timeout, Expires)); a long uptime since the last purge of the pin table is set up by moving the table's purge clock into the past",
                         "pool-vs-pin origin of a dispatch is read from the rr.next hook"]
     ctx.trusted += ["TLC 1.8.0", "alpha of the harness", "Backend doubles"]
     report(ctx, "C04", fails, classfn=lambda f: f["what"] + "/" + f["detail"])
